@@ -25,8 +25,10 @@ from typing import Any, Dict, List, Optional
 
 from . import VERIF_DIR, env
 
-EVIDENCE_DIR = os.path.join(VERIF_DIR, "evidence")
-REPLAY_DIR = os.path.join(VERIF_DIR, "replays")
+# overridable only for self-validation runs against scratch copies (tools/mutant_matrix.py), so that those runs
+# never overwrite the evidence of the real tree
+EVIDENCE_DIR = os.environ.get("VERIF_EVIDENCE_DIR", os.path.join(VERIF_DIR, "evidence"))
+REPLAY_DIR = os.environ.get("VERIF_REPLAY_DIR", os.path.join(VERIF_DIR, "replays"))
 FINDINGS_FILE = os.path.join(VERIF_DIR, "known_findings.json")
 MAX_WORKERS = int(os.environ.get("VERIF_JOBS", "16"))
 
